@@ -462,107 +462,135 @@ func c06Set(p *Prog, rp *Report, archT *types.Named) {
 	if ok, why := loopStateOK(fn); !ok {
 		lenNote = " (bounded: lists of up to 3 entries only; no induction to longer lists because " + why + ")"
 	}
-	rows, bad := 0, 0
-	first := ""
-	for n := 0; n <= 3; n++ {
-		for mask := 0; mask < 1<<n; mask++ {
-			for _, not := range []bool{false, true} {
-				m := NewMachine(p, nil)
-				st := freshState(m, "dependency", "version")
-				arr := &ArrayV{}
-				for i := 0; i < n; i++ {
-					arr.E = append(arr.E, mkStruct(archT, map[string]Val{"ABI": fmt.Sprintf("e%d", i), "OS": "o", "CPU": "c"}))
-				}
-				var sl Val = nilV{}
-				if n > 0 {
-					aid := st.alloc(types.NewArray(archT, int64(n)), arr)
-					sl = SliceV{Obj: aid, Len_: n, Cap: n}
-				} else {
-					aid := st.alloc(types.NewArray(archT, 0), arr)
-					sl = SliceV{Obj: aid, Len_: 0, Cap: 0}
-				}
-				sid := st.alloc(setT, mkStruct(setT, map[string]Val{"Not": not, "Architectures": sl}))
-				oid := st.alloc(archT, mkStruct(archT, map[string]Val{"ABI": "target", "OS": "o", "CPU": "c"}))
-				mask := mask
-				badArg := ""
-				m.Hooks[is.String()] = func(m *Machine, st *State, call *ssa.CallCommon, args []Val) ([]Val, bool) {
-					recv, ok1 := args[0].(Ptr)
-					other, ok2 := args[1].(Ptr)
-					if !ok1 || !ok2 {
-						badArg = "Is called with non-pointer"
-						return []Val{false}, true
+	// Two modes. Oracle mode: Arch.Is is played (every outcome enumerated; exhaustive by data independence). When
+	// Matches does not call Is at all (its logic inlined), the table is run with concrete architectures instead,
+	// whose real Is answers (decided by C06-IS) form the same match patterns.
+	matching := []map[string]Val{{"ABI": "gnu", "OS": "linux", "CPU": "amd64"}, {"ABI": "any", "OS": "linux", "CPU": "amd64"}, {"ABI": "any", "OS": "any", "CPU": "amd64"}}
+	others := []map[string]Val{{"ABI": "gnu", "OS": "linux", "CPU": "i386"}, {"ABI": "any", "OS": "kfreebsd", "CPU": "any"}, {"ABI": "musl", "OS": "linux", "CPU": "amd64"}}
+	matching2 := []map[string]Val{{"ABI": "gnu", "OS": "any", "CPU": "any"}, {"ABI": "any", "OS": "linux", "CPU": "any"}, {"ABI": "gnu", "OS": "linux", "CPU": "any"}}
+	others2 := []map[string]Val{{"ABI": "gnu", "OS": "linux", "CPU": "arm64"}, {"ABI": "any", "OS": "hurd", "CPU": "any"}, {"ABI": "all", "OS": "all", "CPU": "all"}}
+	oracleCalls := 0
+	var table func(concrete bool) (int, int, string, string)
+	table = func(concrete bool) (rows, bad int, first, undec string) {
+		for n := 0; n <= 3; n++ {
+			for mask := 0; mask < 1<<n; mask++ {
+				for _, not := range []bool{false, true} {
+					m := NewMachine(p, nil)
+					st := freshState(m, "dependency", "version")
+					arr := &ArrayV{}
+					for i := 0; i < n; i++ {
+						switch {
+						case !concrete:
+							arr.E = append(arr.E, mkStruct(archT, map[string]Val{"ABI": fmt.Sprintf("e%d", i), "OS": "o", "CPU": "c"}))
+						case mask&(1<<i) != 0:
+							arr.E = append(arr.E, mkStruct(archT, matching[i]))
+						default:
+							arr.E = append(arr.E, mkStruct(archT, others[i]))
+						}
 					}
-					rv, _ := st.load(recv)
-					ov, _ := st.load(other)
-					rs, _ := rv.(*StructV)
-					os, _ := ov.(*StructV)
-					if rs == nil || os == nil {
-						badArg = "Is called on unknown values"
-						return []Val{false}, true
+					var sl Val = nilV{}
+					if n > 0 {
+						aid := st.alloc(types.NewArray(archT, int64(n)), arr)
+						sl = SliceV{Obj: aid, Len_: n, Cap: n}
+					} else {
+						aid := st.alloc(types.NewArray(archT, 0), arr)
+						sl = SliceV{Obj: aid, Len_: 0, Cap: 0}
 					}
-					tagR, _ := rs.F[fieldIndex(structOf(archT), "ABI")].(string)
-					tagO, _ := os.F[fieldIndex(structOf(archT), "ABI")].(string)
-					// either operand order is fine (Is is symmetric by C06-IS)
-					tag := tagR
-					if tagR == "target" {
-						tag = tagO
-					} else if tagO != "target" {
-						badArg = "Is compares an entry with something other than the queried architecture"
+					sid := st.alloc(setT, mkStruct(setT, map[string]Val{"Not": not, "Architectures": sl}))
+					target := map[string]Val{"ABI": "target", "OS": "o", "CPU": "c"}
+					if concrete {
+						target = map[string]Val{"ABI": "gnu", "OS": "linux", "CPU": "amd64"}
 					}
-					var i int
-					if strings.HasPrefix(tag, "f") {
-						// the entries put in place after the first call: the opposite pattern
-						fmt.Sscanf(tag, "f%d", &i)
-						return []Val{mask&(1<<i) == 0}, true
-					}
-					fmt.Sscanf(tag, "e%d", &i)
-					return []Val{mask&(1<<i) != 0}, true
-				}
-				setBefore, argBefore := deepRender(st, Ptr{Obj: sid}, 0), deepRender(st, Ptr{Obj: oid}, 0)
-				st.push(fn, []Val{Ptr{Obj: sid}, Ptr{Obj: oid}}, nil)
-				out := m.Run(st)
-				rows++
-				if len(out) != 1 || out[0].Status != stRet || badArg != "" {
-					r.undecided("dependency.ArchSet.Matches", pos, fmt.Sprintf("n=%d mask=%b not=%v: %s %s", n, mask, not, retDesc(out), badArg))
-					return
-				}
-				if a1, a2 := deepRender(out[0], Ptr{Obj: sid}, 0), deepRender(out[0], Ptr{Obj: oid}, 0); a1 != setBefore || a2 != argBefore {
-					bad++
-					if first == "" {
-						first = fmt.Sprintf("list of %d entries, negated=%v: Matches changes what it is asked about (the set %s became %s): a question is not a query any more", n, not, clip(setBefore, 120), clip(a1, 120))
-					}
-				}
-				want := n == 0 || ((mask != 0) != not)
-				if out[0].Ret != want {
-					bad++
-					if first == "" {
-						first = fmt.Sprintf("list of %d entries, entries matching: %0*b (entry 0 rightmost), negated=%v: Matches = %v, want %v", n, n, mask, not, out[0].Ret, want)
-					}
-				}
-				// the answer depends on the set as it is now: replace the entries in place (same set, same length, same
-				// question) by entries with the opposite match pattern and ask again
-				if n > 0 {
-					s2 := out[0]
-					if sv, ok := s2.Heap[sid].V.(*StructV); ok {
-						if cur, isSl := sv.F[fieldIndex(structOf(setT), "Architectures")].(SliceV); isSl && !cur.Abs {
-							for i := 0; i < n; i++ {
-								s2.store(Ptr{Obj: cur.Obj, Path: pathAppend(cur.Path, cur.Lo+i)}, mkStruct(archT, map[string]Val{"ABI": fmt.Sprintf("f%d", i), "OS": "o", "CPU": "c"}))
+					oid := st.alloc(archT, mkStruct(archT, target))
+					mask := mask
+					badArg := ""
+					if !concrete {
+						m.Hooks[is.String()] = func(m *Machine, st *State, call *ssa.CallCommon, args []Val) ([]Val, bool) {
+							oracleCalls++
+							recv, ok1 := args[0].(Ptr)
+							other, ok2 := args[1].(Ptr)
+							if !ok1 || !ok2 {
+								badArg = "Is called with non-pointer"
+								return []Val{false}, true
 							}
-							s2.Status = stRun
-							s2.Frames = nil
-							s2.push(fn, []Val{Ptr{Obj: sid}, Ptr{Obj: oid}}, nil)
-							out2 := m.Run(s2)
-							rows++
-							if len(out2) != 1 || out2[0].Status != stRet || badArg != "" {
-								r.undecided("dependency.ArchSet.Matches", pos, fmt.Sprintf("second call, n=%d mask=%b not=%v: %s %s", n, mask, not, retDesc(out2), badArg))
-								return
+							rv, _ := st.load(recv)
+							ov, _ := st.load(other)
+							rs, _ := rv.(*StructV)
+							os, _ := ov.(*StructV)
+							if rs == nil || os == nil {
+								badArg = "Is called on unknown values"
+								return []Val{false}, true
 							}
-							inv := ^mask & (1<<n - 1)
-							want2 := (inv != 0) != not
-							if out2[0].Ret != want2 {
-								bad++
-								if first == "" {
-									first = fmt.Sprintf("list of %d entries, negated=%v: after the entries were replaced in place (now matching: %0*b) a second Matches on the same set answers %v, want %v: the answer does not follow the set's current content", n, not, n, inv, out2[0].Ret, want2)
+							tagR, _ := rs.F[fieldIndex(structOf(archT), "ABI")].(string)
+							tagO, _ := os.F[fieldIndex(structOf(archT), "ABI")].(string)
+							// either operand order is fine (Is is symmetric by C06-IS)
+							tag := tagR
+							if tagR == "target" {
+								tag = tagO
+							} else if tagO != "target" {
+								badArg = "Is compares an entry with something other than the queried architecture"
+							}
+							var i int
+							if strings.HasPrefix(tag, "f") {
+								// the entries put in place after the first call: the opposite pattern
+								fmt.Sscanf(tag, "f%d", &i)
+								return []Val{mask&(1<<i) == 0}, true
+							}
+							fmt.Sscanf(tag, "e%d", &i)
+							return []Val{mask&(1<<i) != 0}, true
+						}
+					}
+					setBefore, argBefore := deepRender(st, Ptr{Obj: sid}, 0), deepRender(st, Ptr{Obj: oid}, 0)
+					st.push(fn, []Val{Ptr{Obj: sid}, Ptr{Obj: oid}}, nil)
+					out := m.Run(st)
+					rows++
+					if len(out) != 1 || out[0].Status != stRet || badArg != "" {
+						return rows, bad, first, fmt.Sprintf("n=%d mask=%b not=%v: %s %s", n, mask, not, retDesc(out), badArg)
+					}
+					if a1, a2 := deepRender(out[0], Ptr{Obj: sid}, 0), deepRender(out[0], Ptr{Obj: oid}, 0); a1 != setBefore || a2 != argBefore {
+						bad++
+						if first == "" {
+							first = fmt.Sprintf("list of %d entries, negated=%v: Matches changes what it is asked about (the set %s became %s): a question is not a query any more", n, not, clip(setBefore, 120), clip(a1, 120))
+						}
+					}
+					want := n == 0 || ((mask != 0) != not)
+					if out[0].Ret != want {
+						bad++
+						if first == "" {
+							first = fmt.Sprintf("list of %d entries, entries matching: %0*b (entry 0 rightmost), negated=%v: Matches = %v, want %v", n, n, mask, not, out[0].Ret, want)
+						}
+					}
+					// the answer depends on the set as it is now: replace the entries in place (same set, same length, same
+					// question) by entries with the opposite match pattern and ask again
+					if n > 0 {
+						s2 := out[0]
+						if sv, ok := s2.Heap[sid].V.(*StructV); ok {
+							if cur, isSl := sv.F[fieldIndex(structOf(setT), "Architectures")].(SliceV); isSl && !cur.Abs {
+								for i := 0; i < n; i++ {
+									switch {
+									case !concrete:
+										s2.store(Ptr{Obj: cur.Obj, Path: pathAppend(cur.Path, cur.Lo+i)}, mkStruct(archT, map[string]Val{"ABI": fmt.Sprintf("f%d", i), "OS": "o", "CPU": "c"}))
+									case mask&(1<<i) == 0:
+										s2.store(Ptr{Obj: cur.Obj, Path: pathAppend(cur.Path, cur.Lo+i)}, mkStruct(archT, matching2[i]))
+									default:
+										s2.store(Ptr{Obj: cur.Obj, Path: pathAppend(cur.Path, cur.Lo+i)}, mkStruct(archT, others2[i]))
+									}
+								}
+								s2.Status = stRun
+								s2.Frames = nil
+								s2.push(fn, []Val{Ptr{Obj: sid}, Ptr{Obj: oid}}, nil)
+								out2 := m.Run(s2)
+								rows++
+								if len(out2) != 1 || out2[0].Status != stRet || badArg != "" {
+									return rows, bad, first, fmt.Sprintf("second call, n=%d mask=%b not=%v: %s %s", n, mask, not, retDesc(out2), badArg)
+								}
+								inv := ^mask & (1<<n - 1)
+								want2 := (inv != 0) != not
+								if out2[0].Ret != want2 {
+									bad++
+									if first == "" {
+										first = fmt.Sprintf("list of %d entries, negated=%v: after the entries were replaced in place (now matching: %0*b) a second Matches on the same set answers %v, want %v: the answer does not follow the set's current content", n, not, n, inv, out2[0].Ret, want2)
+									}
 								}
 							}
 						}
@@ -570,11 +598,20 @@ func c06Set(p *Prog, rp *Report, archT *types.Named) {
 				}
 			}
 		}
+		return rows, bad, first, ""
 	}
-	if bad > 0 {
+	rows, bad, first, undec := table(false)
+	mode := ""
+	if oracleCalls == 0 && (bad > 0 || undec != "") {
+		rows, bad, first, undec = table(true)
+		mode = " (Matches does not call Arch.Is: run with concrete architectures, whose Is answers are decided by C06-IS)"
+	}
+	if undec != "" {
+		r.undecided("dependency.ArchSet.Matches", pos, undec)
+	} else if bad > 0 {
 		r.bad("dependency.ArchSet.Matches", pos, fmt.Sprintf("%d of %d rows wrong: %s", bad, rows, first), nil)
 	} else {
-		r.ok("dependency.ArchSet.Matches", pos, fmt.Sprintf("%d rows (lengths 0..3 x every match pattern x negation)%s", rows, lenNote))
+		r.ok("dependency.ArchSet.Matches", pos, fmt.Sprintf("%d rows (lengths 0..3 x every match pattern x negation)%s%s", rows, lenNote, mode))
 	}
 }
 
@@ -622,6 +659,15 @@ func c06Select(p *Prog, rp *Report, archT *types.Named) {
 		rows, bad := 0, 0
 		first := ""
 		undec := ""
+		// oracle mode plays ArchSet.Matches; when the selection does not call it (its logic inlined) the shapes are
+		// run with concrete architecture lists whose real answers (C06-SET, C06-IS) form the same patterns
+		concrete := false
+		oracleCalls := 0
+		mkArch := func(abi, os, cpu string) Val {
+			return mkStruct(archT, map[string]Val{"ABI": abi, "OS": os, "CPU": cpu})
+		}
+		admitting := [][]Val{nil, {mkArch("any", "linux", "any")}, {mkArch("gnu", "linux", "i386"), mkArch("gnu", "linux", "amd64")}}
+		refusing := [][]Val{{mkArch("gnu", "linux", "i386")}, {mkArch("any", "kfreebsd", "any")}, {mkArch("musl", "linux", "amd64"), mkArch("gnu", "linux", "arm64")}}
 		run := func(rels [][]alt) {
 			m := NewMachine(p, nil)
 			st := freshState(m, "dependency", "version")
@@ -630,7 +676,20 @@ func c06Select(p *Prog, rp *Report, archT *types.Named) {
 			for ri, alts := range rels {
 				pa := &ArrayV{}
 				for ai, a := range alts {
-					setID := st.alloc(setT, mkStruct(setT, map[string]Val{}))
+					setFields := map[string]Val{}
+					if concrete {
+						list := refusing[(ri+ai)%3]
+						if a.adm {
+							list = admitting[(ri+ai)%3]
+						}
+						arr := &ArrayV{}
+						for _, e := range list {
+							arr.E = append(arr.E, cloneVal(e))
+						}
+						lid := st.alloc(types.NewArray(archT, int64(len(list))), arr)
+						setFields["Architectures"] = SliceV{Obj: lid, Len_: len(list), Cap: len(list)}
+					}
+					setID := st.alloc(setT, mkStruct(setT, setFields))
 					admits[setID] = a.adm
 					pa.E = append(pa.E, mkStruct(posT, map[string]Val{"Name": fmt.Sprintf("r%da%d", ri, ai), "Substvar": a.sub, "Architectures": Ptr{Obj: setID}}))
 				}
@@ -640,7 +699,13 @@ func c06Select(p *Prog, rp *Report, archT *types.Named) {
 			rid := st.alloc(types.NewArray(relT, int64(len(rels))), relArr)
 			did := st.alloc(depT, mkStruct(depT, map[string]Val{"Relations": SliceV{Obj: rid, Len_: len(rels), Cap: len(rels)}}))
 			badArg := ""
-			m.Hooks[matches.String()] = func(m *Machine, st *State, call *ssa.CallCommon, args []Val) ([]Val, bool) {
+			if !concrete {
+				m.Hooks[matches.String()] = func(m *Machine, st *State, call *ssa.CallCommon, args []Val) ([]Val, bool) {
+					oracleCalls++
+					return matchesOracle(st, archT, admits, &badArg, args)
+				}
+			}
+			_ = func(m *Machine, st *State, call *ssa.CallCommon, args []Val) ([]Val, bool) {
 				recv, ok := args[0].(Ptr)
 				if !ok {
 					badArg = "Matches on a non-pointer"
@@ -656,7 +721,11 @@ func c06Select(p *Prog, rp *Report, archT *types.Named) {
 			}
 			args := []Val{Ptr{Obj: did}}
 			if method == "GetPossibilities" {
-				args = append(args, mkStruct(archT, map[string]Val{"ABI": "a", "OS": "o", "CPU": "thearch"}))
+				if concrete {
+					args = append(args, mkArch("gnu", "linux", "amd64"))
+				} else {
+					args = append(args, mkStruct(archT, map[string]Val{"ABI": "a", "OS": "o", "CPU": "thearch"}))
+				}
 			}
 			before := deepRender(st, Ptr{Obj: did}, 0)
 			st.push(fn, args, nil)
@@ -731,13 +800,35 @@ func c06Select(p *Prog, rp *Report, archT *types.Named) {
 				run([][]alt{a, b})
 			}
 		}
+		mode := ""
+		if method == "GetPossibilities" && oracleCalls == 0 && (bad > 0 || undec != "") && !concrete {
+			concrete = true
+			rows, bad, first, undec = 0, 0, "", ""
+			run(nil)
+			for _, a := range altSets {
+				if undec == "" {
+					run([][]alt{a})
+				}
+			}
+			for _, a := range altSets {
+				if len(a) > 2 || undec != "" {
+					continue
+				}
+				for _, b := range altSets {
+					if len(b) <= 2 {
+						run([][]alt{a, b})
+					}
+				}
+			}
+			mode = " (the selection does not call ArchSet.Matches: run with concrete architecture lists)"
+		}
 		switch {
 		case undec != "":
 			r.undecided("dependency.Dependency."+method, pos, undec)
 		case bad > 0:
 			r.bad("dependency.Dependency."+method, pos, fmt.Sprintf("%d of %d shapes wrong: %s", bad, rows, first), nil)
 		default:
-			r.ok("dependency.Dependency."+method, pos, fmt.Sprintf("%d dependency shapes (1 relation x 0..3 alternatives, 2 relations x 0..2, every substvar/admit pattern)%s", rows, lenNote))
+			r.ok("dependency.Dependency."+method, pos, fmt.Sprintf("%d dependency shapes (1 relation x 0..3 alternatives, 2 relations x 0..2, every substvar/admit pattern)%s%s", rows, lenNote, mode))
 		}
 	}
 }
@@ -891,7 +982,7 @@ func c06Sat(p *Prog, rp *Report) {
 		installStringModels(m)
 		type e2e struct {
 			op, n, v string
-			want    bool
+			want     bool
 		}
 		var tbl []e2e
 		for _, n := range []string{"-1", "-", "0:-1", "1:-0~1", "", "a", ":1", "1:", "1 2", "-0"} {
@@ -957,4 +1048,20 @@ func freshState(m *Machine, pkgs ...string) *State {
 		st.Status = stRun
 	}
 	return st
+}
+
+// matchesOracle plays ArchSet.Matches for C06-SELECT: the answer is the one scripted for the receiver.
+func matchesOracle(st *State, archT *types.Named, admits map[int]bool, badArg *string, args []Val) ([]Val, bool) {
+	recv, ok := args[0].(Ptr)
+	if !ok {
+		*badArg = "Matches on a non-pointer"
+		return []Val{false}, true
+	}
+	if ap, ok := args[1].(Ptr); ok {
+		av, _ := st.load(ap)
+		if as, ok := av.(*StructV); !ok || as.F[fieldIndex(structOf(archT), "CPU")] != "thearch" {
+			*badArg = "Matches is asked about something other than the architecture argument"
+		}
+	}
+	return []Val{admits[recv.Obj]}, true
 }
